@@ -43,7 +43,8 @@ def deviate(rng, base, others):
         m = rng.choice(["id-random", "id-other", "id-upper", "id-mixed", "swap-pubkey", "swap-sig", "sig-other-key",
                         "content", "tags", "kind", "created_at", "num-str", "num-float", "num-bool",
                         "deleg-forged", "deleg-transplant", "deleg-short", "deleg-valid", "sig-zero", "id-short",
-                        "pubkey-upper-resigned", "sig-upper", "created-str-resigned", "created-float-resigned"])
+                        "pubkey-upper-resigned", "sig-upper", "created-str-resigned", "created-float-resigned",
+                        "pubkey-spaced-resigned", "sig-spaced", "sig-spaced", "deleg-spaced"])
         o = rng.choice(others) if others else base
         if m == "id-random":
             ev["id"] = histgen.hexid(rng)
@@ -93,6 +94,22 @@ def deviate(rng, base, others):
         elif m == "pubkey-upper-resigned":
             ev["pubkey"] = ev["pubkey"].upper()
             ev = evgen.resign(ev, evgen.BY_PUB[ev["pubkey"].lower()])
+        elif m == "pubkey-spaced-resigned":
+            # hex with white space in it (bytes.fromhex skips it): not a 64-hex key, whatever it decodes to
+            w = rng.choice([" ", "\t", "\n"])
+            k = rng.choice([0, 2, 32, 64])
+            lower = ev["pubkey"].lower()
+            ev["pubkey"] = lower[:k] + w + lower[k:]
+            ev = evgen.resign(ev, evgen.BY_PUB[lower])
+        elif m == "sig-spaced":
+            w = rng.choice([" ", "\t", "\n", "  "])
+            k = rng.choice([0, 2, 64, 128])
+            ev["sig"] = ev["sig"][:k] + w + ev["sig"][k:]
+        elif m == "deleg-spaced":
+            t = evgen.delegation_tag(evgen.AUTHORS[1], ev["pubkey"])
+            t[rng.choice([1, 3])] = " " + t[1] if rng.random() < 0.5 else t[3][:2] + " " + t[3][2:]
+            ev["tags"] = ev["tags"] + [t]
+            ev = evgen.resign(ev)
         elif m == "sig-upper":
             ev["sig"] = ev["sig"].upper()
         elif m == "created-str-resigned":
